@@ -515,12 +515,54 @@ func TestVerif_C13(t *testing.T) {
 					l.NontrivialKey(c.Pattern)
 				}
 			}
+			if rep == 0 {
+				isLD := func(b int) bool { return b >= 'a' && b <= 'z' || b >= '0' && b <= '9' }
+				for v := 0; v < 256; v++ {
+					b := string([]byte{byte(v)})
+					// middle of a label (position 6 of "exaXmple"): letters, digits and hyphen are valid; `_` and `.` are not judged
+					if v != '_' && v != '.' {
+						valid := isLD(v) || v == '-'
+						for _, p := range []string{"https://exam" + b + "ple.com", "https://*.exam" + b + "ple.com:8080", "connector://sub.exam" + b + "ple.com.:*", "http://localhost" + b + "x:*"} {
+							c13Run(r, l, c13Case{Pattern: p, Valid: valid, Defect: "host-byte", Shape: "byte-sweep-host"})
+							l.NontrivialKey(p)
+						}
+					}
+					// middle of a scheme: letters, digits, `+`, `-`, `.` are valid; `_` is not judged
+					if v != '_' {
+						valid := isLD(v) || v == '+' || v == '-' || v == '.'
+						p := "web" + b + "app://example.com"
+						if valid && ("web"+b+"app" == "file") {
+							valid = false
+						}
+						c13Run(r, l, c13Case{Pattern: p, Valid: valid, Defect: "scheme-byte", Shape: "byte-sweep-scheme"})
+						l.NontrivialKey(p)
+					}
+					// first byte of a scheme: lower-case letters only (upper case is not judged)
+					if !(v >= 'A' && v <= 'Z') && v != '_' {
+						p := b + "ttp://example.com:8080"
+						c13Run(r, l, c13Case{Pattern: p, Valid: v >= 'a' && v <= 'z', Defect: "scheme-first-byte", Shape: "byte-sweep-scheme"})
+					}
+					// a digit position of a port
+					{
+						p := "https://example.com:8" + b + "80"
+						c13Run(r, l, c13Case{Pattern: p, Valid: v >= '0' && v <= '9', Defect: "port-byte", Shape: "byte-sweep-port"})
+						p = "https://example.com:" + b + "080"
+						c13Run(r, l, c13Case{Pattern: p, Valid: v >= '1' && v <= '9', Defect: "port-first-byte", Shape: "byte-sweep-port"})
+					}
+					// first and last byte of a label: letters and digits only
+					if v != '_' && v != '.' {
+						for _, p := range []string{"https://" + b + "xample.com", "https://exampl" + b + ".com", "https://a." + b + "b.example.com"} {
+							c13Run(r, l, c13Case{Pattern: p, Valid: isLD(v), Defect: "label-edge-byte", Shape: "byte-sweep-host"})
+						}
+					}
+				}
+			}
 			c13Run(r, l, c13Case{Pattern: "null", Valid: false, Defect: "null"})
 			c13Run(r, l, c13Case{Pattern: "file:///somepath", Valid: false, Defect: "file-scheme"})
 		}
 		l.Sample("all-maxima", c13Case{Pattern: allMaximaShape(rng).String(), Valid: true, Shape: "all-maxima"})
 	})
-	r.Exhaustive("every domain length 1..300 (with/without trailing dot), every wildcard-base length 1..300, every label length 1..80, every scheme length 1..80, every port 0..100100, all maxima at once")
+	r.Exhaustive("every byte value at a mid-label, label-edge, mid-scheme, first-scheme and port-digit position; every domain length 1..300 (with/without trailing dot), every wildcard-base length 1..300, every label length 1..80, every scheme length 1..80, every port 0..100100, all maxima at once")
 
 	nb := pick(r, 64, 1024)
 	per := pick(r, 1200, 4000)
